@@ -171,7 +171,7 @@ class Ctx:
             names += self.prop_theorems(m)
         self.obligations += len(names)
         src = "".join(f"import {m}\n" for m in modules)
-        src += "set_option pp.width 100000\n"
+        src += "set_option format.width 100000\n"
         for n in names:
             src += f'#print axioms {n}\n#check @{n}\n'
         f = os.path.join(self.work, "audit.lean")
@@ -187,9 +187,9 @@ class Ctx:
                 axioms[n] = [a.strip() for a in m.group(1).replace("\n", " ").split(",") if a.strip()]
             elif re.search(r"'" + re.escape(n) + r"' does not depend on any axioms", text):
                 axioms[n] = []
-            m = re.search(r"(?m)^@" + re.escape(n) + r" : (.*)$", text)
+            m = re.search(r"(?m)^@?" + re.escape(n) + r" : (.*(?:\n[ \t]+.*)*)$", text)
             if m:
-                stmts[n] = m.group(1).strip()
+                stmts[n] = " ".join(m.group(1).split())
         lockp = os.path.join(LEAN, "statements.lock")
         lock = json.load(open(lockp)) if os.path.exists(lockp) else {}
         for n in names:
@@ -202,6 +202,9 @@ class Ctx:
                 continue
             if update_lock:
                 lock[n] = stmts.get(n, "")
+            elif not stmts.get(n):
+                self.failed_obligations.append(f"{n}: statement could not be read back from #check")
+                continue
             elif n in lock and lock[n] != stmts.get(n, ""):
                 self.failed_obligations.append(f"{n}: statement differs from lean/statements.lock")
                 continue
@@ -283,10 +286,44 @@ def run_lines(cmd, lines, timeout=1200):
     data = "".join(l + "\n" for l in lines)
     try:
         p = subprocess.run(cmd, input=data, capture_output=True, text=True, timeout=timeout)
-        return p.stdout.splitlines(), p.returncode, p.stderr[-2000:]
+        so = p.stdout
+        if p.returncode != 0:
+            so = so[:so.rfind("\n") + 1]
+        return so.splitlines(), p.returncode, p.stderr[-2000:]
     except subprocess.TimeoutExpired as e:
         out = e.stdout.decode() if isinstance(e.stdout, bytes) else (e.stdout or "")
+        out = out[:out.rfind("\n") + 1]           # complete lines only
         return out.splitlines(), -999, "timeout"
+
+
+def run_lines_robust(cmd, lines, per_line_timeout=20.0, batch=200, floor=60.0):
+    """like run_lines, but a hang, crash or abort inside one line does not lose the others: the
+    input is processed in batches under a deadline and a failing batch is bisected. Lines that
+    kill or hang the process get the answers 'crash rc=<n>' / 'hang'."""
+    out = [None] * len(lines)
+
+    def go(lo, hi):
+        if lo >= hi:
+            return
+        chunk = lines[lo:hi]
+        to = max(floor if hi - lo > 1 else per_line_timeout, per_line_timeout * 0.05 * (hi - lo))
+        res, rc, err = run_lines(cmd, chunk, timeout=to)
+        if rc == 0 and len(res) == len(chunk):
+            out[lo:hi] = res
+            return
+        if hi - lo == 1:
+            out[lo] = "hang" if rc == -999 else f"crash rc={rc} {err.strip().splitlines()[-1][:200] if err.strip() else ''}"
+            return
+        # answers before the failure point are valid
+        good = len(res) if rc != -999 else max(0, len(res) - 0)
+        good = min(good, hi - lo - 1)
+        out[lo:lo + good] = res[:good]
+        go(lo + good, lo + good + 1)
+        go(lo + good + 1, hi)
+
+    for i in range(0, len(lines), batch):
+        go(i, min(len(lines), i + batch))
+    return out
 
 
 def first_diff(a, b):
